@@ -79,6 +79,7 @@ fn dispatch(group: &str, case: &Value, rep: &mut util::Report, rng: &mut util::R
         "training" => training::replay_training(case, rep, rng),
         "validate" => training::replay_validate(case, rep, rng),
         "net" => netcase::replay_net(case, rep),
+        "flow" => netcase::replay_flow(case, rep),
         _ => panic!("unknown group {}", group),
     }
 }
